@@ -4,3 +4,4 @@ pub mod poly1305;
 pub mod big;
 pub mod ed25519;
 pub mod sha512;
+pub mod digests;
